@@ -8,6 +8,7 @@
 #include "mpir.h"
 #include "gmp-impl.h"
 #include "longlong.h"
+#include "vf_asm.h"
 
 #define VF_MAXIN 512
 unsigned long VF_IN[VF_MAXIN];
@@ -45,6 +46,17 @@ static unsigned long in64 (void)
   CHECK (GMP_NUMB_BITS == 64, "fidelity: no nails"); } while (0)
 
 typedef unsigned __int128 vf_u128;
+
+/* D-PAT: corner table; a limb is CORNER[selector], selector symbolic with T bits (tables nest) */
+static const unsigned long VF_CORNER[16] = { 0UL, 0xffffffffffffffffUL, 1UL, 0x8000000000000000UL,
+  0xfffffffffffffffeUL, 0x7fffffffffffffffUL, 2UL, 0x8000000000000001UL,
+  0x5555555555555555UL, 0xaaaaaaaaaaaaaaaaUL, 0x00000000ffffffffUL, 0xffffffff00000000UL,
+  3UL, 0xfffffffffffffffdUL, 0x4000000000000000UL, 0x0000000100000000UL };
+static unsigned long vf_pat (int t)
+{ unsigned long s = in64 (); ASSUME (s < (1UL << t));
+  /* explicit mux over constants keeps the formula small */
+  { unsigned long r = 0; int k; for (k = 0; k < 16; k++) if (s == (unsigned long) k) r = VF_CORNER[k]; return r; } }
+static void vf_fill_pat (mp_limb_t *p, long n, int t) { long i; for (i = 0; i < n; i++) p[i] = vf_pat (t); }
 
 /* fill n limbs with recorded nondeterministic values */
 static void vf_fill (mp_limb_t *p, long n) { long i; for (i = 0; i < n; i++) p[i] = in64 (); }
